@@ -1,21 +1,20 @@
 """Registry of claimed properties -> MANIFEST.json (python3 lib/registry.py writes it)."""
 import json
 import os
+import re
 
 VERIF = os.path.dirname(os.path.dirname(os.path.abspath(__file__)))
 
-CHECKS = {
-    "C11": {
-        "category": "proof",
-        "technique": "Coq proof over a model regenerated from the Rust source by a translator (T) + model/implementation correspondence (X)",
-        "text": "Theorem C11_remainder_exact: for every 64-bit hash v and divisor 1<=d<2^64 the strength-reduced kernel returns v mod d with no intermediate overflow. "
-                "The Gallina model is regenerated from repartition/mod.rs on every run by translators/rs_kernel2coq.py and the proofs are re-checked; the model is also compared "
-                "with the real kernel (verif_hooks) on an edge grid + random cases, and the public BatchPartitioner hash path is checked against create_hashes % n.",
-        "note": "Trusted: Coq kernel; the translator (tiny integer subset, fails closed, cross-checked by the correspondence); rustc; usize=u64. The hash function itself is abstract (theorem is for all hashes).",
-        "design_ref": "DESIGN.md §5 C11",
-        "engine": "T-kernel",
-    },
-}
+def load_checks():
+    d = {}
+    pd = os.path.join(VERIF, "lib", "props")
+    for f in sorted(os.listdir(pd)):
+        if re.match(r"C\d+\.json$", f):
+            d[f[:-5]] = json.load(open(os.path.join(pd, f)))
+    return d
+
+
+CHECKS = load_checks()
 
 NOT_APPLICABLE = {}
 
